@@ -364,11 +364,17 @@ func (in *inst) rawCall(kind string, sharedObj bool) (key string, out outcome) {
 			if err := s.Check(); err != nil {
 				return key, outcome{obs: "n/a: " + errText(err)}
 			}
-			var sb strings.Builder
-			for _, inf := range openapi.Dereference(s) {
-				writeInformer(&sb, inf, 0)
+			infs := openapi.Dereference(s)
+			f := func() string {
+				var sb strings.Builder
+				for _, inf := range infs {
+					writeInformer(&sb, inf, 0)
+				}
+				return sb.String()
 			}
-			return key, outcome{obs: sb.String()}
+			// the informers stay valid objects in the caller's hands: what they
+			// report later must be what they reported when they were returned
+			return key, outcome{obs: f(), live: f}
 		}
 	case "enum":
 		switch kind {
